@@ -207,7 +207,7 @@ func (d *structDesc) fromDefsFields(ff []defs.Field) {
 		}
 	}
 	d.maxID = maxFieldID
-	d.fieldIdx = make([]int, maxFieldID+1)
+	d.fieldIdx = make([]int, int(maxFieldID)+1) // convert first, uint16(65535)+1 overflows to 0
 	for i := range d.fieldIdx {
 		d.fieldIdx[i] = -1
 	}
